@@ -4,6 +4,7 @@ import gc
 import importlib
 import os
 import pickle
+import sys
 import traceback
 
 from rv import contracts, reach
@@ -639,11 +640,31 @@ def run_lookups(ctx, shard):
     except Exception as e:
         ctx.unsure("mingus.extra.fft cannot be imported: %r" % e)
         return
-    if not hasattr(fft, "_find_log_index") or not hasattr(fft, "_last_asked") or not hasattr(fft, "_log_cache"):
-        ctx.unsure("fft lookup internals (_find_log_index/_last_asked/_log_cache) are missing")
+    if not hasattr(fft, "_find_log_index"):
+        ctx.unsure("fft._find_log_index (the lookup with position memory) is missing")
         return
-    table = list(fft._log_cache)
+    from mingus.containers import Note
+    # the table of the 129 note frequencies, and how to forget the position memory: by the names the module uses today,
+    # or - when an implementation keeps its memory elsewhere or has none - from the public Note API and by re-executing
+    # the module (which resets whatever module-level memory there is)
+    has_names = hasattr(fft, "_last_asked") and hasattr(fft, "_log_cache")
+    table = list(fft._log_cache) if has_names else [Note().from_int(x).to_hertz() for x in range(129)]
     rng = ctx.rng("lookup")
+    ctx.extra["lookup_cold_state_by"] = "resetting fft._last_asked" if has_names else "re-executing mingus.extra.fft"
+
+    class _Memory(object):
+        """fft._last_asked, or a stand-in whose assignment re-executes the module"""
+        def __setattr__(self, name, value):
+            if has_names:
+                setattr(sys.modules["mingus.extra.fft"], name, value)
+            elif value is None:
+                importlib.reload(sys.modules["mingus.extra.fft"])
+
+        def __getattr__(self, name):
+            if name == "_find_log_index":
+                return sys.modules["mingus.extra.fft"]._find_log_index
+            return getattr(sys.modules["mingus.extra.fft"], name) if has_names else None
+    fft = _Memory()
 
     def model_index(f):
         # nearest-above index in the frequency table; 128 beyond the table or for non-positive input
